@@ -96,6 +96,21 @@ def run(ctx, clauses=CLAUSES):
     tiny3 = list(sc.small_inputs(FAM, gen.bin_shapes(3), gen.bin_shapes(3), LEAF_SYNS, sc.SUPER_COSTS[:1]))
     e2 = (tiny[::2] + mid + tiny3[ctx.seed % 2::2]) if not thorough else tiny + mid + tiny3
     cases = [(FAM, inp, sc.CALLS) for inp in list(dict.fromkeys(e2 + big))]
+    if thorough:
+        # every tuple of leaf family sets over 3 families on one 5-leaf caterpillar
+        import itertools
+        ot, st = gen.caterpillar(5), gen.caterpillar(3)
+        sets = [tuple(f for i, f in enumerate((1, 2, 3)) if mask >> i & 1) for mask in range(1, 8)]
+        lm = gen.random_leaf_map(rng, ot, st)
+        leaves = proj.leaves_of(ot)
+        sweep = []
+        for combo in itertools.product(sets, repeat=5):
+            syn = [()] * len(ot)
+            for u, s_ in zip(leaves, combo):
+                syn[u - 1] = s_
+            sweep.append(sc.sinput(ot, st, lm, sc.SUPER_COSTS[rng.randrange(len(sc.SUPER_COSTS))], syn))
+        cases += [(FAM, inp, (("ext", "ALL"),)) for inp in sweep]
+        ctx.extra["caterpillar_sweep"] = len(sweep)
     results = sc.run_all(cases)
     ctx.stage("solver runs")
     for _, inp, events in results:
